@@ -33,6 +33,7 @@ type check struct {
 	nMark  int64
 	tier   string
 	svgs   []string // SVG documents with reference graphs among their definitions
+	nests  []svgNest // SVG documents with every container holding every short sequence of child kinds
 }
 
 func init() { engine.Register(&check{}) }
@@ -53,36 +54,75 @@ var markupTokens = []string{
 }
 
 // skeletons: {k} is the style slot k (appended to the slot's base style); slots 4 and 5 are html and body.
+//
+// A skeleton may declare extra slots (indices 6, 7, …; placeholders {6}, {7}, … in its style sheet): the
+// declaration blocks of pseudo-elements, page-margin boxes and the footnote area, i.e. the places where
+// `content:` functions, @footnote properties … have an effect. A skeleton may also have a local menu:
+// declarations that only mean something in its context, enumerated on its slots only.
 type skeleton struct {
 	name  string
 	css   string
 	body  string
 	slots int
+	extra []string // names of the extra slots (feature tag "in:<name>")
+	local []decl   // context menu, indexed after the global menu
 }
 
 var skeletons = []skeleton{
-	{"block", "", `<div style="{0}"><p style="{1}">ab cd</p><p style="{2}">ef gh ij</p></div><p style="{3}">kl mn</p>`, 4},
-	{"inline", "", `<p style="{0}">ab <span style="{1}">cd <b style="{2}">ef</b> gh</span> ij <em style="{3}">kl</em> mn</p>`, 4},
-	{"float", "", `<div style="{0}"><div style="float:left;width:30px;{1}">ab cd</div><p style="{2}">ef gh ij kl</p></div><p style="clear:both;{3}">mn</p>`, 4},
-	{"abs", "", `<div style="position:relative;{0}"><div style="position:absolute;top:5px;left:5px;{1}">ab</div><p style="{2}">cd ef</p><div style="position:fixed;bottom:0;{3}">gh</div></div>`, 4},
-	{"table", "", `<table style="{0}"><tr style="{1}"><td style="{2}">ab</td><td style="{3}">cd ef</td></tr><tr><td>gh</td><td>ij</td></tr></table>`, 4},
-	{"list", "", `<ul style="{0}"><li style="{1}">ab</li><li style="{2}">cd<ol><li style="{3}">ef</li></ol></li></ul>`, 4},
-	{"flex", "", `<div style="display:flex;{0}"><div style="{1}">ab</div><div style="{2}">cd ef</div><span style="{3}">gh</span></div>`, 4},
-	{"grid", "", `<div style="display:grid;grid-template-columns:1fr 1fr;{0}"><div style="{1}">ab</div><div style="{2}">cd ef</div><span style="{3}">gh</span></div>`, 4},
-	{"columns", "", `<div style="columns:2;{0}"><p style="{1}">ab cd ef gh</p><p style="{2}">ij kl mn</p></div><p style="{3}">op</p>`, 4},
-	{"footnote", "", `<p style="{0}">ab<span style="float:footnote;{1}">cd ef</span> gh</p><p style="{2}">ij <span style="{3}">kl</span></p>`, 4},
-	{"running", `@page{@top-center{content:element(h)} @bottom-right{content:counter(page) "/" counter(pages)}}`,
-		`<div style="position:running(h);{0}">hd</div><p style="{1}">ab cd</p><p style="string-set:t content();{2}">ef</p><p style="{3}">gh</p>`, 4},
-	{"inline-block", "", `<p style="{0}">ab <span style="display:inline-block;{1}">cd <i style="{2}">ef</i></span> gh <span style="{3}">ij</span></p>`, 4},
-	{"replaced", "", `<p style="{0}">ab <img style="{1}" src="` + pngData + `"> cd <svg style="{2}" width="10" height="10"><rect width="5" height="5"/></svg> <span style="{3}">ef</span></p>`, 4},
-	{"pseudo", `.q::before{content:"b" counter(c)} .q::after{content:"a"} li::marker{content:"m"} .q{counter-increment:c}`,
-		`<div class="q" style="{0}">ab<ul><li class="q" style="{1}">cd</li></ul></div><p class="q" style="{2}">ef</p><p style="{3}">gh</p>`, 4},
+	{"block", "", `<div style="{0}"><p style="{1}">ab cd</p><p style="{2}">ef gh ij</p></div><p style="{3}">kl mn</p>`, 4, nil, nil},
+	{"inline", "", `<p style="{0}">ab <span style="{1}">cd <b style="{2}">ef</b> gh</span> ij <em style="{3}">kl</em> mn</p>`, 4, nil, nil},
+	{"float", "", `<div style="{0}"><div style="float:left;width:30px;{1}">ab cd</div><p style="{2}">ef gh ij kl</p></div><p style="clear:both;{3}">mn</p>`, 4, nil, nil},
+	{"abs", "", `<div style="position:relative;{0}"><div style="position:absolute;top:5px;left:5px;{1}">ab</div><p style="{2}">cd ef</p><div style="position:fixed;bottom:0;{3}">gh</div></div>`, 4, nil, nil},
+	{"table", "", `<table style="{0}"><tr style="{1}"><td style="{2}">ab</td><td style="{3}">cd ef</td></tr><tr><td>gh</td><td>ij</td></tr></table>`, 4, nil, nil},
+	{"list", "", `<ul style="{0}"><li style="{1}">ab</li><li style="{2}">cd<ol><li style="{3}">ef</li></ol></li></ul>`, 4, nil, nil},
+	{"flex", "", `<div style="display:flex;{0}"><div style="{1}">ab</div><div style="{2}">cd ef</div><span style="{3}">gh</span></div>`, 4, nil, nil},
+	{"grid", "", `<div style="display:grid;grid-template-columns:1fr 1fr;{0}"><div style="{1}">ab</div><div style="{2}">cd ef</div><span style="{3}">gh</span></div>`, 4, nil, nil},
+	{"columns", "", `<div style="columns:2;{0}"><p style="{1}">ab cd ef gh</p><p style="{2}">ij kl mn</p></div><p style="{3}">op</p>`, 4, nil, nil},
+	{"footnote", `@page{@footnote{{6}}}`, `<p style="{0}">ab<span style="float:footnote;{1}">cd ef</span> gh</p><p style="{2}">ij <span style="{3}">kl</span></p>`, 4,
+		[]string{"@footnote"}, footnoteMenu},
+	{"running", `@page{@top-center{content:element(h);{6}} @bottom-right{content:counter(page) "/" counter(pages)}}`,
+		`<div style="position:running(h);{0}">hd</div><p style="{1}">ab cd</p><p style="string-set:t content();{2}">ef</p><p style="{3}">gh</p>`, 4,
+		[]string{"@top-center"}, contentMenu},
+	{"inline-block", "", `<p style="{0}">ab <span style="display:inline-block;{1}">cd <i style="{2}">ef</i></span> gh <span style="{3}">ij</span></p>`, 4, nil, nil},
+	{"replaced", "", `<p style="{0}">ab <img style="{1}" src="` + pngData + `"> cd <svg style="{2}" width="10" height="10"><rect width="5" height="5"/></svg> <span style="{3}">ef</span></p>`, 4, nil, nil},
+	{"pseudo", `.q::before{content:"b" counter(c);{6}} .q::after{content:"a";{7}} li::marker{content:"m";{8}} .q{counter-increment:c}`,
+		`<div class="q" style="{0}">ab<ul><li class="q" style="{1}">cd</li></ul></div><p class="q" style="{2}">ef</p><p style="{3}">gh</p>`, 4,
+		[]string{"::before", "::after", "::marker"}, contentMenu},
+	// table of contents: leader(), target-counter() and target-text() in the pseudo-elements of links to later headings
+	{"toc", `a::after{content:leader('.') target-counter(attr(href),page);{6}} a::before{content:target-text(attr(href)) " ";{7}} h2{string-set:t content()}`,
+		`<ul style="{0}"><li style="{1}"><a href="#t" style="{2}">ab</a></li><li><a href="#u">cd</a></li></ul><h2 id="t" style="{3}">ef</h2><p id="u">gh</p>`, 4,
+		[]string{"::after", "::before"}, contentMenu},
+	// several footnotes in one paragraph, the footnote area and the call / marker pseudo-elements
+	{"footnotes", `.f{float:footnote} @page{@footnote{{6}}} .f::footnote-call{{7}} .f::footnote-marker{{8}}`,
+		`<p style="{0}">ab<span class="f" style="{1}">cd</span> ef<span class="f">gh</span><span class="f" style="{2}">ij</span> kl<span class="f">mn</span><span class="f">op</span></p><p style="{3}">qr</p>`, 4,
+		[]string{"@footnote", "::footnote-call", "::footnote-marker"}, footnoteMenu},
+	// a running element that is a subtree (block children, inline grandchild) placed in a margin box
+	{"running-tree", `@page{@top-center{content:element(h);{6}}}`,
+		`<div style="position:running(h);{0}"><p style="{1}">hd</p><p style="{2}">he <span style="{3}">hf</span></p></div><p>ab</p><p>cd</p>`, 4,
+		[]string{"@top-center"}, nil},
+	// language-tagged paragraphs with automatic / manual hyphenation: one-letter word, long words, soft hyphens
+	{"hyphens", "", `<p lang="en" style="hyphens:auto;{0}">hyphen a</p><p lang="en" style="hyphens:auto;{1}">cd <span style="{2}">extra&shy;ordinary</span> hyphenation</p><p lang="zz" style="hyphens:manual;{3}">ef&shy;gh ij</p>`, 4,
+		nil, hyphenMenu},
 }
+
+// context menus
+var (
+	contentMenu = []decl{
+		d("content:leader('.') 'x'"), d("content:target-text(attr(href))"), d("content:target-counters(attr(href),c,'.')"), d("content:counters(c,'.') string(t,last) attr(href)"),
+		d("content:open-quote close-quote no-close-quote"), d("content:target-counter('#zz',page)"),
+	}
+	footnoteMenu = []decl{d("footnote-display:inline"), d("footnote-display:compact"), d("footnote-policy:line"), d("footnote-policy:block")}
+	hyphenMenu   = []decl{
+		d("hyphenate-limit-chars:2 1 1"), d("hyphenate-limit-chars:0 0 0"), d("hyphenate-limit-zone:50%"), d("hyphenate-character:'ab'"),
+		d("hyphens:none"), d("overflow-wrap:anywhere"), d("word-break:break-all"), d("letter-spacing:-3px"),
+	}
+)
 
 var skTags = map[string][]string{
 	"float": {"float:left"}, "abs": {"position:absolute", "position:fixed"}, "table": {"display:table"}, "list": {"display:list-item"},
 	"flex": {"display:flex"}, "grid": {"display:grid"}, "columns": {"columns:2"}, "footnote": {"float:footnote"},
 	"running": {"position:running(h)"}, "inline-block": {"display:inline-block"},
+	"toc": {"content:leader('.')"}, "footnotes": {"float:footnote"}, "running-tree": {"position:running(h)"}, "hyphens": {"hyphens:auto"},
 }
 
 type decl struct {
@@ -111,6 +151,30 @@ var menu = []decl{
 	d("vertical-align:top"), d("text-indent:-30px"), d("margin:auto"), d("orphans:5;widows:5"), d("bookmark-level:1"), d("z-index:-1;position:relative"),
 	di("no-such-property:1"), di("color:notacolor"), di("width:10xx"), di("margin:1px 2px 3px 4px 5px"), di("transform:rotate("),
 	di("display:"), di("font:"), di("background:url("), di(":red"), di("width:calc(1px +"),
+	// sub-pixel font size (text narrower than 1px), bounded height
+	d("font-size:.5px"), d("max-height:20px"),
+}
+
+// declAt returns declaration i of the menu of skeleton sk: the global menu followed by the skeleton's context menu.
+func declAt(sk, i int) decl {
+	if i < len(menu) {
+		return menu[i]
+	}
+	return skeletons[sk].local[i-len(menu)]
+}
+
+func nDecls(sk int) int { return len(menu) + len(skeletons[sk].local) }
+
+// slotsOf lists the slot indices of skeleton sk: 4 element slots, html, body, then the context slots.
+func slotsOf(sk int, withRoot bool) []int {
+	out := []int{0, 1, 2, 3}
+	if withRoot {
+		out = append(out, 4, 5)
+	}
+	for k := range skeletons[sk].extra {
+		out = append(out, 6+k)
+	}
+	return out
 }
 
 type config struct {
@@ -150,19 +214,24 @@ func (c *check) Init(tier string, seed int64) engine.Space {
 	for i := range c.svgs {
 		c.cases = append(c.cases, caseT{fam: 'g', sk: i})
 	}
-	nslots := 6
-	// level 0 and 1 on every configuration
+	// SVG nesting: every container element holding every short sequence of child kinds
+	c.nests = svgNestDocs(tier == "thorough")
+	for i := range c.nests {
+		c.cases = append(c.cases, caseT{fam: 'n', sk: i})
+	}
+	// level 0 and 1 on every configuration: every declaration of the skeleton's menu on every slot
 	for cfg := range configs {
 		for sk := range skeletons {
 			c.cases = append(c.cases, caseT{fam: 's', sk: sk, cfg: cfg})
-			for slot := 0; slot < nslots; slot++ {
-				for di := range menu {
+			for _, slot := range slotsOf(sk, true) {
+				for di := 0; di < nDecls(sk); di++ {
 					c.cases = append(c.cases, caseT{fam: 's', sk: sk, cfg: cfg, devs: []dev{{slot, di}}})
 				}
 			}
 		}
 	}
-	// level 2: quick = core menu on the element slots, default geometry; thorough = full menu, 3 geometries
+	// level 2: quick = core menu on the element slots, default geometry; thorough = full menu (with the
+	// context menu and the context slots), 3 geometries
 	geoms := []int{0}
 	if tier == "thorough" {
 		geoms = []int{0, 1, 4}
@@ -170,9 +239,13 @@ func (c *check) Init(tier string, seed int64) engine.Space {
 	for _, cfg := range geoms {
 		for sk := range skeletons {
 			var ds []dev
-			for slot := 0; slot < 4; slot++ {
-				for di, m := range menu {
-					if tier == "thorough" || m.core {
+			slots := []int{0, 1, 2, 3}
+			if tier == "thorough" {
+				slots = slotsOf(sk, false)
+			}
+			for _, slot := range slots {
+				for di := 0; di < nDecls(sk); di++ {
+					if tier == "thorough" || declAt(sk, di).core {
 						ds = append(ds, dev{slot, di})
 					}
 				}
@@ -225,6 +298,15 @@ func (c *check) build(cs *caseT) (html string, o render.Options, features []stri
 		features = append(features, "svg-refs")
 		return
 	}
+	if cs.fam == 'n' {
+		n := c.nests[cs.sk]
+		html = "<style>" + cfg.page + " html,body{font-family:ahem;font-size:10px;line-height:1}</style><p>ab " + n.doc + " cd</p>"
+		o.HTML = html
+		features = append(features, n.feats...)
+		sort.Strings(features)
+		features = uniq(features)
+		return
+	}
 	if cs.fam == 'm' {
 		html = "<style>" + cfg.page + " html,body{font-family:ahem;font-size:10px;line-height:1}</style>" + c.markup.At(cs.mi)
 		o.HTML = html
@@ -234,20 +316,29 @@ func (c *check) build(cs *caseT) (html string, o render.Options, features []stri
 	sk := skeletons[cs.sk]
 	features = append(features, "sk:"+sk.name)
 	features = append(features, skTags[sk.name]...)
-	styles := make([]string, 6)
+	styles := make([]string, 6+len(sk.extra))
 	for _, dv := range cs.devs {
-		styles[dv.slot] += menu[dv.decl].css + ";"
-		features = append(features, menu[dv.decl].css)
-		if dv.slot >= 4 {
+		m := declAt(cs.sk, dv.decl)
+		styles[dv.slot] += m.css + ";"
+		features = append(features, m.css)
+		if dv.slot == 4 || dv.slot == 5 {
 			features = append(features, "on-root-or-body")
 		}
+		if dv.slot >= 6 {
+			features = append(features, "in:"+sk.extra[dv.slot-6])
+		}
 	}
-	body := sk.body
-	for k := 0; k < 4; k++ {
-		body = strings.ReplaceAll(body, fmt.Sprintf("{%d}", k), styles[k])
+	body, css := sk.body, sk.css
+	for k := range styles {
+		if k == 4 || k == 5 {
+			continue
+		}
+		ph := fmt.Sprintf("{%d}", k)
+		body = strings.ReplaceAll(body, ph, styles[k])
+		css = strings.ReplaceAll(css, ph, styles[k])
 	}
 	html = fmt.Sprintf(`<html style="%s"><head><style>%s html,body{margin:0;font-family:ahem;font-size:10px;line-height:1} %s</style></head><body style="%s">%s</body></html>`,
-		styles[4], cfg.page, sk.css, styles[5], body)
+		styles[4], cfg.page, css, styles[5], body)
 	o.HTML = html
 	sort.Strings(features)
 	features = uniq(features)
@@ -312,7 +403,7 @@ func (c *check) Run(u int64, ctx *engine.Ctx) {
 	}
 	// skipping clause: an invalid declaration is dropped with a warning and the rest renders identically
 	onSVG := cs.fam == 's' && skeletons[cs.sk].name == "replaced" && len(cs.devs) == 1 && cs.devs[0].slot == 2
-	if len(cs.devs) == 1 && menu[cs.devs[0].decl].invalid && !onSVG {
+	if len(cs.devs) == 1 && declAt(cs.sk, cs.devs[0].decl).invalid && !onSVG {
 		base := cs
 		base.devs = nil
 		_, bo, _ := c.build(&base)
